@@ -372,6 +372,101 @@ def rule_r3(repo, rule='C06.R3', modes=(False,)):
     rr.require_floor(7)
     return rr
 
+def rule_handover(repo, rule='C06.R8'):
+    """Decoder / Encoder.process_template_data folded on three uncompressed subsets with the real CoderState (its __init__ and
+    switch_subset_context) and the template walk replaced by a stub that appends a token of the current subset to the current
+    records: what is handed to TemplateData are the state's own per-subset records - three distinct objects, each holding exactly
+    what its own subset produced - whatever the template looks like (with or without delayed replication, bitmaps, markers)."""
+    from sa.patheval import Interp, Obj, Sym, Top
+    from sa.rules.walk import fold_init, element, operator
+    from sa.rules.common import callee_qual
+    rr = RuleResult(rule, 'the per-subset records of an uncompressed message reach TemplateData as they were produced: distinct objects, each with its own subset\'s entries')
+    templates = {
+        'plain elements': [element(1001), element(12101)],
+        'replaced/retained values (232255)': [element(12101), operator(232, 0), Obj('FixedReplicationDescriptor', {'id': 101001, 'members': [element(31031, unit='FLAG TABLE')]}),
+                                             operator(232, 255)],
+        'delayed replication': [Obj('DelayedReplicationDescriptor', {'id': 101000, 'members': [element(12101)], 'factor': element(31001)})],
+        'quality information (222000)': [element(12101), operator(222, 0), operator(236, 0),
+                                         Obj('FixedReplicationDescriptor', {'id': 101001, 'members': [element(31031, unit='FLAG TABLE')]}), element(33007, unit='CODE TABLE')],
+    }
+    for coder in ('Decoder', 'Encoder'):
+        fi = repo.own_method(coder, 'process_template_data')
+        for tname, members in sorted(templates.items()):
+            class TD(Interp):
+                MAX_DEPTH = 30
+
+                def on_call(self, text, callee, args, kwargs, node, frame):
+                    q = callee_qual(callee) or text
+                    if q in ('class:CoderState', 'CoderState'):
+                        vals = args[2] if len(args) > 2 else kwargs.get('decoded_values_all_subsets')
+                        sts = fold_init(self.repo, False, 3, values=vals if isinstance(vals, list) else None)
+                        # (the debug-logging arm wraps the value lists in AuditedList; the ordinary arm is taken)
+                        plain = [x for x in sts if isinstance(x.fields.get('decoded_values_all_subsets'), list) and
+                                 all(isinstance(v, list) for v in x.fields['decoded_values_all_subsets'])]
+                        st = (plain or sts)[0]
+                        self.state = st
+                        return st
+                    if q == 'BufrMessage.build_template':
+                        return (Obj('BufrTemplate', {'members': list(members), 'id': 999999, 'original_descriptor_ids': [1, 2]}), Sym('TG'))
+                    if q.split('.')[-1] in ('process_template', 'process_compiled_template') or text == 'template_processing_func':
+                        st = self.state
+                        k = st.fields.get('idx_subset')
+                        dd = st.fields.get('decoded_descriptors')
+                        if isinstance(dd, list):
+                            dd.append(Sym('D%s' % k))
+                        bl = st.fields.get('bitmap_links')
+                        if isinstance(bl, dict):
+                            bl[0] = Sym('L%s' % k)
+                        dv = st.fields.get('decoded_values')
+                        if isinstance(dv, list) and coder == 'Decoder':
+                            dv.append(Sym('V%s' % k))
+                        return None
+                    if q in ('class:TemplateData', 'TemplateData'):
+                        self.event('template_data', list(args), dict(kwargs))
+                        return Obj('TemplateData', {})
+                    if text.startswith('log.'):
+                        return None
+                    return self.NOT_HANDLED
+            it = TD(repo, coder)
+
+            def mk():
+                bm = Obj('BufrMessage', {'is_compressed': Obj('SectionParameter', {'value': False}), 'n_subsets': Obj('SectionParameter', {'value': 3})})
+                loc = {'self': Obj(coder, {'compiled_template_manager': None, 'tables_root_dir': Sym('ROOT')}), 'bufr_message': bm}
+                for p in fi.params[2:]:
+                    loc[p] = Sym('BITIO') if p.startswith('bit_') else Obj('SectionParameter', {'value': [[Sym('IN0')], [Sym('IN1')], [Sym('IN2')]]})
+                return loc
+            res = it.run_function(fi, mk, self_class=coder)
+            rr.instance('%s.process_template_data, three uncompressed subsets, template with %s' % (coder, tname))
+            oks = [r for r in res if r.ok]
+            if not oks:
+                raise AnalysisError('%s.process_template_data could not be folded on three subsets (%s): %s' % (coder, tname, [r.describe() for r in res][:2]))
+            for r in oks:
+                tdv = [e for e in r.events if e[0] == 'template_data']
+                if len(tdv) != 1:
+                    rr.fail('%s.process_template_data:template-data' % coder, fi.where, 'TemplateData is built %d times' % len(tdv))
+                    continue
+                pos = list(tdv[0][1])
+                kw = tdv[0][2]
+                tparams = repo.own_method('TemplateData', '__init__').params[1:]
+                given = dict(zip(tparams, pos))
+                given.update(kw)
+                for pname, tok in (('decoded_descriptors_all_subsets', 'D'), ('bitmap_links_all_subsets', 'L')) + ((('decoded_values_all_subsets', 'V'),) if coder == 'Decoder' else ()):
+                    v = given.get(pname)
+                    want = [[Sym('%s%d' % (tok, k))] for k in range(3)] if tok != 'L' else [{0: Sym('L%d' % k)} for k in range(3)]
+                    ok = isinstance(v, list) and len(v) == 3 and all(v[i] is not v[j] for i in range(3) for j in range(i)) and \
+                        [repr(x) for x in v] == [repr(x) for x in want]
+                    if not ok:
+                        rr.fail('%s.process_template_data:%s' % (coder, pname), fi.where, 'template with %s: TemplateData receives %s = %s%s; the three subsets produced %s, '
+                                'each in its own record' % (tname, pname, _r(v), ' (two subsets share one object)' if isinstance(v, list) and len(v) == 3 and
+                                                            any(v[i] is v[j] for i in range(3) for j in range(i)) else '', _r(want)), witness={'template': tname})
+    rr.require_floor(8)
+    return rr
+
+
+def _r(v):
+    s = repr(v)
+    return s if len(s) < 200 else s[:197] + '...'
+
 
 def run(repo, check):
     check.run_rule(rule_r1, repo)
@@ -389,5 +484,8 @@ def run(repo, check):
     from sa.rules import c13 as _c13
     from sa.rules.common import share as _sh
     _sh(check, repo, _c13.rule_r3, 'C06.R6', 'coders, renderers and querents keep nothing from one subset (or message) to the next (shared with C13.R3)')
+    check.run_rule(rule_handover, repo)
+    from sa.rules import c09 as _c09
+    _sh(check, repo, _c09.rule_per_subset_rendering, 'C06.R7', 'every renderer shows subset k from the records of subset k (shared with C09.R11)', args=('C06.R7',))
     check.assumptions = ['the receiver named `state` denotes the CoderState (confirmed by reading; DESIGN 2.2)',
                          'registers are attributes of CoderState / TemplateData; no module-level mutable state is used by the walk (checked under C13)']
